@@ -149,12 +149,13 @@ def parse_mir(text):
         rest = m.group(2)
         if ln.rstrip().endswith(";"):
             # one-line const: `const NAME: T = const V;`
-            mm = re.match(r"^(.*?): (.*?) = (.*);$", rest)
-            if mm and not skip_next:
-                f = Function(mm.group(1), kind)
-                f.ret = mm.group(2)
+            k1 = _first_top_level(rest, ": ")
+            k2 = _first_top_level(rest, " = ")
+            if k1 is not None and k2 is not None and k1 < k2 and not skip_next:
+                f = Function(rest[:k1], kind)
+                f.ret = rest[k1 + 2:k2]
                 f.locals["_0"] = f.ret
-                f.blocks["bb0"] = (["_0 = %s" % mm.group(3)], "return")
+                f.blocks["bb0"] = (["_0 = %s" % rest[k2 + 3:-1]], "return")
                 f.order = ["bb0"]
                 funcs.append(f)
             skip_next = False
@@ -205,11 +206,11 @@ def _parse_item(kind, header, body):
             f.params.append((mm.group(1), mm.group(2)))
             f.locals[mm.group(1)] = mm.group(2)
     else:
-        mm = re.match(r"^(.*?): (.*) =$", header)
-        if not mm:
+        k1 = _first_top_level(header, ": ")
+        if k1 is None or not header.endswith(" ="):
             raise MirSyntax("const header: " + header)
-        f = Function(mm.group(1), kind)
-        f.ret = mm.group(2).strip()
+        f = Function(header[:k1], kind)
+        f.ret = header[k1 + 2:-2].strip()
     ms = re.search(r"<impl at ([^:>]+):(\d+):(\d+): (\d+):(\d+)>", f.name)
     if ms:
         f.src = (ms.group(1), int(ms.group(2)), int(ms.group(3)))
